@@ -92,4 +92,18 @@ CHECKS = {
   'note': TB,
   'technique': 'Coq write-set bounds theorems over translated fill statement + canary/guard/header/GC/checkptr differential harness',
  },
+ 'C14': {
+  'text': ("Proof (Coq): AnalyzeTypeAddr (loop body and epilogue) and the guard, index and allocation expressions of the four CompileToGetCodeSet / "
+           "CompileToGetDecoder variants are TRANSLATED from the source on every run (tools/translate/typeaddr.go -> Gen/TypeAddr.v, uintptr subtraction modulo 2^64). "
+           "Theorems: for EVERY typelinks sample, every set of live type descriptors laid out as Go lays them out (>=48 bytes each, not overlapping; congruent to "
+           "base modulo 64 if the analysis chose shift 6), every number of goroutines and EVERY schedule of the load/compile/publish protocol (address-indexed slice "
+           "and copy-on-write map), in both builds: a goroutine that obtained a program obtained the one compiled for its own type and no lookup indexes outside "
+           "the cache (decoder: for descriptors not below base; the missing lower bound and the order dependence of the alignment inference are proved as refutation "
+           "witnesses and the corresponding hypotheses are checked on the running binary). Tie: the verif hook reports the real typelinks sample, TypeAddr and the slot "
+           "used for every type; harness compares them with the extracted model (c14.analyze, c14.slot), asserts first-owner uniqueness of every slot and program.Type == "
+           "requested type, and encodes/decodes 3500 compiled-in + run-time reflect types in shuffled order on cold caches against encoding/json, in the !race and the race build. "
+           "Partial: sequentially consistent steps only (weak-memory effects of the unsynchronised publish belong to C10); descriptor size 48 is a fact of the Go runtime."),
+  'note': TB,
+  'technique': 'Coq theorems over translated address analysis + cache protocol under any schedule; hook-based slot/owner correspondence in race and !race builds',
+ },
 }
